@@ -1,4 +1,5 @@
 import Rough.Lemmas.Keys
+import Rough.Spec.ServerSpec
 /-
   C10 — server identity is a pure function of the seed and certifies every online key.
   "public key = RFC 8032 public key of the seed" and "SRV = SHA-512(0xff ‖ pk)[0..32]" are the model's
@@ -10,9 +11,8 @@ open Rough
 
 /-- Both certificates a server creates verify under the long-term key of the seed, each under its
     own protocol's delegation context, and certify exactly the online key of that responder. -/
-theorem C10_cert_valid (E : Env) (hS : E.S.Correct) (seed onlI onlC : Bytes) (b : Nat)
-    (hseed : seed.length = 32) (hI : onlI.length = 32) (hC : onlC.length = 32)
-    (hH : ∀ x, (E.H x).length = 64) :
+theorem C10_cert_valid (E : Env) (hS : E.S.Correct) (hE : ServerSpec.EnvOK E) (seed onlI onlC : Bytes) (b : Nat)
+    (hseed : seed.length = 32) (hI : onlI.length = 32) (hC : onlC.length = 32) :
     ∃ s, Server.new E seed onlI onlC b = .ok s ∧ s.ltPub = E.S.pk seed ∧
       s.srv = (E.H ((0xff : UInt8) :: E.S.pk seed)).take 32 ∧
       ∀ r ∈ [s.ietf, s.classic], ∃ cert sig dele deleM,
@@ -21,7 +21,7 @@ theorem C10_cert_valid (E : Env) (hS : E.S.Correct) (seed onlI onlC : Bytes) (b 
         Spec.decode dele = some deleM ∧ deleM.get Tag.PUBK = some (E.S.pk r.onl.seed) ∧
         deleM.get Tag.MINT = some (le64 0) ∧ deleM.get Tag.MAXT = some (le64 (2 ^ 64 - 1)) ∧
         r.onl.buf = [] :=
-  Lemmas.Keys.cert_valid E hS seed onlI onlC b hseed hI hC hH
+  Lemmas.Keys.cert_valid E hS hE seed onlI onlC b hseed hI hC
 
 /-- the delegation window [0, 2^64−1] contains every representable midpoint -/
 theorem C10_window (m : Nat) (h : m < 2 ^ 64) : leVal (le64 0) ≤ m ∧ m ≤ leVal (le64 (2 ^ 64 - 1)) :=
